@@ -35,7 +35,10 @@ type Prog struct {
 	funcList  []*FuncInfo
 
 	// set when the program is the normalised (helper-expanded) view
-	posMaps     map[string]*fileMap
+	posLayers   []map[string]*fileMap // one per normalisation round, oldest first
+	overlay     map[string][]byte
+	expandedAll map[string]bool
+	nExpanded   int
 	origSrc     map[string][]byte
 	lineStarts  map[string][]int
 	Normalised  string
@@ -305,13 +308,27 @@ func (p *Prog) PosOf(pos token.Pos) string {
 		return "?"
 	}
 	ps := p.Fset.Position(pos)
-	if fm := p.posMaps[ps.Filename]; fm != nil {
-		if sg, ok := fm.lookup(ps.Offset); ok {
-			off := sg.off
-			if sg.verbatim {
-				off += ps.Offset - sg.start
+	if len(p.posLayers) > 0 {
+		file, off, mapped := ps.Filename, ps.Offset, false
+		for i := len(p.posLayers) - 1; i >= 0; i-- {
+			fm := p.posLayers[i][file]
+			if fm == nil {
+				continue
 			}
-			ps.Filename, ps.Line = sg.file, p.lineOf(sg.file, off)
+			sg, ok := fm.lookup(off)
+			if !ok {
+				break
+			}
+			mapped = true
+			if sg.verbatim {
+				off = sg.off + off - sg.start
+			} else {
+				off = sg.off
+			}
+			file = sg.file
+		}
+		if mapped {
+			ps.Filename, ps.Line = file, p.lineOf(file, off)
 		}
 	}
 	rel, err := filepath.Rel(p.Repo, ps.Filename)
